@@ -134,6 +134,14 @@ def covered(node, exc_names, require_report=True):
                     break
             if hit is not None:
                 ok = (not require_report) or body_always_reports_or_exits(hit.body)
+                if not ok:
+                    # the handler only records what went wrong and the report follows the try statement
+                    par = getattr(t, "_parent", None)
+                    for field in ("body", "orelse", "finalbody"):
+                        blk = getattr(par, field, None)
+                        if isinstance(blk, list) and t in blk:
+                            follow = blk[blk.index(t) + 1:]
+                            ok = bool(follow) and body_always_reports_or_exits(list(hit.body) + follow)
                 break
         if not ok:
             missing.append(e)
